@@ -9,7 +9,8 @@
 //   C <hex> ... => <r> <r> ... | EXN:n
 // followed by CRASH:<sig> / HANG when the process died, and by \t#ORACLE:<what> when the property itself fails on
 // the library's outputs (independent of the Coq model):
-//   optlevel : the same init at another optimisation level gives a value more than 2 ulp away
+//   optlevel : the same init at another optimisation level gives a value more than 16 ulp away (LLVM folds llvm.powi /
+//              libm calls of constants with other algorithms than the run-time code: a few ulp)
 //   cse      : symbolic CSE on/off give values that differ beyond rounding
 //   loads    : dumps() + loads() into a fresh visitor does not reproduce the values bit for bit
 //   reinit   : the reused visitor differs from a fresh one given the same init ("reuse-after-failed-init" when an
@@ -449,10 +450,10 @@ static std::string run_history(const std::string &line, int wfd)
                     return true;
                 if (a == b)
                     return true;
+                if (std::isinf(spread[i]))
+                    return true; // hopelessly ill-conditioned here (or at the boundary of the domain)
                 if (std::isnan(a) || std::isnan(b))
                     return false;
-                if (std::isinf(spread[i]))
-                    return true; // hopelessly ill-conditioned here
                 double tol = 64 * spread[i] + 1e-9 * std::fabs(b) + 1e-300;
                 return std::fabs(a - b) <= tol || ulp_dist(a, b) <= 8;
             };
@@ -461,12 +462,36 @@ static std::string run_history(const std::string &line, int wfd)
                     if (!std::isnan(ref[i]) && !close(outs[i], ref[i], i)) // a NaN reference: the output has no value there
                         oracle += " value(output " + std::to_string(i) + ": llvm " + dblbits(outs[i]) + " lambda " + dblbits(ref[i]) + ")";
             }
-            // the float / long double evaluators: loose agreement with the double one (testing)
+            // the float / long double evaluators: loose agreement with the double one (testing); the sensitivity of the
+            // outputs is measured with the lambda reference under RELATIVE input perturbations of the size of the
+            // variant's rounding (intermediate roundings of that size move the result at least as much)
             if (have_ref) {
-                auto loose = [&](double a, double b, size_t i, double eps) {
-                    if (std::isnan(a) || std::isnan(b) || std::isinf(a) || std::isinf(b) || std::isinf(spread[i]))
+                auto sens = [&](double rel) {
+                    std::vector<double> sp(nout, 0.0);
+                    std::vector<double> in(inp);
+                    if (in.empty())
+                        in.push_back(0.0);
+                    for (size_t k = 0; k < inp.size() && k < 6; k++)
+                        for (int dir = -1; dir <= 1; dir += 2) {
+                            std::vector<double> p(in);
+                            p[k] = p[k] + dir * rel * (1.0 + std::fabs(p[k]));
+                            std::vector<double> o(nout, 0.0);
+                            lam->call(o.data(), p.data());
+                            for (size_t i = 0; i < nout; i++) {
+                                double d = std::fabs(o[i] - ref[i]);
+                                if (std::isnan(d))
+                                    d = INFINITY;
+                                if (d > sp[i])
+                                    sp[i] = d;
+                            }
+                        }
+                    return sp;
+                };
+                std::vector<double> sp_f = sens(1e-6), sp_l = sens(1e-13);
+                auto loose = [&](double a, double b, size_t i, double eps, const std::vector<double> &sp) {
+                    if (std::isnan(a) || std::isnan(b) || std::isinf(a) || std::isinf(b) || std::isinf(sp[i]) || std::isnan(ref[i]))
                         return true;
-                    double tol = eps * (1.0 + std::fabs(b)) + eps / 1e-16 * 64 * spread[i];
+                    double tol = 1e3 * eps * (1.0 + std::fabs(b)) + 1e3 * sp[i];
                     return std::fabs(a - b) <= tol;
                 };
                 if (fvis) {
@@ -480,7 +505,7 @@ static std::string run_history(const std::string &line, int wfd)
                     if (exact_in) {
                         fvis->call(fo.data(), fi.data());
                         for (size_t i = 0; i < nout; i++)
-                            if (!loose((double)fo[i], outs[i], i, 1e-4))
+                            if (!loose((double)fo[i], outs[i], i, 1e-6, sp_f))
                                 oracle += " float(output " + std::to_string(i) + ": float " + dblbits((double)fo[i]) + " double " + dblbits(outs[i]) + ")";
                     }
                 }
@@ -491,7 +516,7 @@ static std::string run_history(const std::string &line, int wfd)
                         li.push_back(0.0L);
                     lvis->call(lo.data(), li.data());
                     for (size_t i = 0; i < nout; i++)
-                        if (!loose((double)lo[i], outs[i], i, 1e-10))
+                        if (!loose((double)lo[i], outs[i], i, 1e-13, sp_l))
                             oracle += " longdouble(output " + std::to_string(i) + ": long double " + dblbits((double)lo[i]) + " double " + dblbits(outs[i]) + ")";
                 }
 #endif
@@ -499,8 +524,10 @@ static std::string run_history(const std::string &line, int wfd)
             for (auto &va : variants) {
                 std::vector<double> ov = llvm_call(*va.v, inp, nout);
                 for (size_t i = 0; i < nout; i++) {
+                    if (have_ref && (std::isnan(ref[i]) || std::isinf(spread[i])))
+                        continue; // the output has no value there / is at the boundary of its domain
                     if (va.cse == last.cse) {
-                        if (ulp_dist(ov[i], outs[i]) > 2)
+                        if (ulp_dist(ov[i], outs[i]) > 16)
                             oracle += " optlevel(output " + std::to_string(i) + ": opt " + std::to_string(last.opt) + " gives "
                                       + dblbits(outs[i]) + ", opt " + std::to_string(va.opt) + " " + dblbits(ov[i]) + ")";
                     } else if (have_ref ? !close(ov[i], outs[i], i) : ulp_dist(ov[i], outs[i]) > 64) {
